@@ -1362,6 +1362,7 @@ func compileTableExpr(context *funcContext, reg int, ex *ast.TableExpr, ec *expc
 	regbase := reg
 
 	arraycount := 0
+	pending := 0 // positional fields evaluated into registers but not yet flushed
 	lastvararg := false
 	for i, field := range ex.Fields {
 		islast := i == len(ex.Fields)-1
@@ -1372,6 +1373,7 @@ func compileTableExpr(context *funcContext, reg int, ex *ast.TableExpr, ec *expc
 			} else {
 				reg += compileExpr(context, reg, field.Value, ecnone(0))
 				arraycount += 1
+				pending += 1
 			}
 		} else {
 			regorg := reg
@@ -1386,28 +1388,23 @@ func compileTableExpr(context *funcContext, reg int, ex *ast.TableExpr, ec *expc
 			code.AddABC(opcode, tablereg, b, c, sline(ex))
 			reg = regorg
 		}
-		flush := arraycount % FieldsPerFlush
-		if (arraycount != 0 && (flush == 0 || islast)) || lastvararg {
+		if pending == FieldsPerFlush || (islast && pending > 0) || lastvararg {
 			reg = regbase
-			num := flush
-			if num == 0 {
-				num = FieldsPerFlush
-			}
-			c := (arraycount-1)/FieldsPerFlush + 1
-			b := num
-			if islast && isVarArgReturnExpr(field.Value) {
+			c := (arraycount-pending)/FieldsPerFlush + 1
+			b := pending
+			if lastvararg {
 				b = 0
 			}
+			pending = 0
 			line := field.Value
 			if field.Key != nil {
 				line = field.Key
 			}
 			if c > 511 {
-				c = 0
-			}
-			code.AddABC(OP_SETLIST, tablereg, b, c, sline(line))
-			if c == 0 {
+				code.AddABC(OP_SETLIST, tablereg, b, 0, sline(line))
 				code.Add(uint32(c), sline(line))
+			} else {
+				code.AddABC(OP_SETLIST, tablereg, b, c, sline(line))
 			}
 		}
 	}
